@@ -280,6 +280,10 @@ def mutate_value(
 
     # If there are any left-over attributes to apply to our value, we do so here.
     if value is not None and value is not MISSING and attrs:
+        if expected_type is not None and not check_type(value, expected_type):
+            raise TypeError(
+                f"Cannot set attributes {sorted(attrs)} on a value of an invalid type [got `{repr(value)}`; expecting `{type_label(expected_type)}`]."
+            )
         if not mutate_safe:
             value = protect_via_deepcopy(value)
             mutate_safe = True
